@@ -10,4 +10,130 @@ theorem flag_once (sd : SlotData) :
     (flag sd).1.misbehaved = true ∧ ((flag sd).2 = if sd.misbehaved then [] else [.invalidBlock]) := by
   unfold flag; cases h : sd.misbehaved <;> simp [h]
 
+/-- **InvalidBlock exactly once, nothing from dissemination afterwards.** For every sequence of
+    dissemination shreds whatsoever (any order, duplication, any mix of validly signed slices), the
+    events sent to Votor are a sequence without `InvalidBlock`, optionally followed by exactly one
+    `InvalidBlock` — after which the slot is flagged and nothing (no `Block`, no `FirstShred`) is
+    announced from dissemination any more. -/
+theorem invalid_once_then_silent (env : Nat → Content) (sd : SlotData) (ss : List Shred)
+    (h : sd.misbehaved = false) :
+    ∃ pre, (∀ e ∈ pre, e ≠ Event.invalidBlock) ∧
+      (((runDissem env sd ss).2 = pre ∧ (runDissem env sd ss).1.misbehaved = false) ∨
+       ((runDissem env sd ss).2 = pre ++ [.invalidBlock] ∧ (runDissem env sd ss).1.misbehaved = true)) := by
+  induction ss generalizing sd with
+  | nil => exact ⟨[], by simp, Or.inl ⟨rfl, h⟩⟩
+  | cons s rest ih =>
+    rcases addDissem_cases env sd s h with ⟨hm, hne⟩ | ⟨hm, hev⟩
+    · obtain ⟨pre, hpre, hcase⟩ := ih (addDissem env sd s).1 hm
+      refine ⟨(addDissem env sd s).2.2 ++ pre, ?_, ?_⟩
+      · intro e he; rcases List.mem_append.mp he with he | he
+        · exact hne e he
+        · exact hpre e he
+      · simp only [runDissem]
+        rcases hcase with ⟨h1, h2⟩ | ⟨h1, h2⟩
+        · left; exact ⟨by rw [h1], h2⟩
+        · right; exact ⟨by rw [h1, List.append_assoc], h2⟩
+    · refine ⟨[], by simp, Or.inr ?_⟩
+      simp only [runDissem]
+      rw [runDissem_flagged env _ rest hm]
+      simp [hev, hm]
+
+/-- once flagged, every dissemination shred is refused without any event -/
+theorem flagged_refuses (env : Nat → Content) (sd : SlotData) (s : Shred) (h : sd.misbehaved = true) :
+    addDissem env sd s = (sd, .err .invalidShred, []) := addDissem_flagged env sd s h
+
+/-- **Only well-formed blocks are ever announced** (the safety half of `bad_block_flagged`, for every
+    state and every shred, dissemination or repair): whenever `add_shred` announces a block,
+    * its hash is the double-Merkle root of the reconstructed slices' roots, in slice order,
+    * the first slice carries a parent, every slice's transactions decode and the block's
+      transactions are their concatenation,
+    * at most one later slice switches the parent, never to the current parent, and the announced
+      parent is the switched one (else the first slice's),
+    * the announced parent is in an earlier slot (fix D3),
+    and exactly this block is what is stored as `completed`. -/
+theorem announced_block_wellformed (env : Nat → Content) (b b' : BlockData) (s : Shred) (info : BlockInfo)
+    (h : addShred env b s = (b', .ev (.block info))) :
+    ∃ (b1 : BlockData) (first : RSlice) (p0 : Nat × Nat) (txs : List Nat),
+      let vals := mapVals b1.cap b1.slices
+      info.hash = (Merkle.Tree.new (vals.map (·.root))).root ∧
+      b1.slices 0 = some first ∧ first.parent = some p0 ∧
+      (∀ r ∈ vals, ∃ t, r.txs = some t) ∧ txs = vals.flatMap (fun r => r.txs.getD []) ∧
+      ((switches vals = [] ∧ info.parent = p0) ∨
+        (∃ r, switches vals = [r] ∧ r.parent = some info.parent ∧ info.parent ≠ p0)) ∧
+      info.parent.1 < b1.slot ∧
+      b'.completed = some ⟨info.hash, info.parent, txs⟩ := by
+  obtain ⟨b1, hb1⟩ := addShred_block_origin env b b' s info h
+  obtain ⟨last, first, p0, txs, _, _, _, hf, hp0, hfold, hslot, hhash, hcomp, _⟩ :=
+    tryReconstructBlock_complete b1 b' info hb1
+  obtain ⟨htx1, htx2⟩ := foldSlices_txs _ _ _ _ _ _ hfold
+  refine ⟨b1, first, p0, txs, hhash, hf, hp0, htx1, by simpa using htx2, ?_, hslot, hcomp⟩
+  rcases foldSlices_parent _ _ _ _ _ _ hfold with h1 | ⟨_, r, h2, h3, h4⟩
+  · exact Or.inl h1
+  · exact Or.inr ⟨r, h2, h3, h4⟩
+
+/-- **Conflicting slices are flagged.** A validly signed shred whose commitment differs from the one
+    cached for its slice index is answered `Equivocation`, and (on the dissemination path of a slot
+    not yet flagged) exactly one `InvalidBlock` is sent and the slot is flagged. -/
+theorem conflicting_slice_flagged (env : Nat → Content) (sd : SlotData) (s : Shred) (c : Commitment)
+    (hm : sd.misbehaved = false) (hc : sd.dis.cache s.slice = some c) (hne : c ≠ s.commitment) :
+    (addDissem env sd s).2 = (.err .equivocation, [.invalidBlock]) ∧ (addDissem env sd s).1.misbehaved = true := by
+  unfold addDissem
+  simp only [hm, Bool.false_eq_true, if_false]
+  have : addShred env sd.dis s = (sd.dis, .err .equivocation) := by
+    unfold addShred cacheStep; simp [hc, hne]
+  simp [this, isBadErr, flag, hm]
+
+/-- **Contradictory last-slice markers are flagged**, in both arrival orders: once slice `l` is marked
+    last, a shred of a later slice, another last marker, or an unmarked shred of slice `l` is
+    `Equivocation`; and a last marker on slice `k` arriving after any shred of a slice beyond `k` is
+    `Equivocation` too (fix D2). -/
+theorem contradictory_marker_flagged (env : Nat → Content) (sd : SlotData) (s : Shred)
+    (hm : sd.misbehaved = false)
+    (hbad : (∃ l, sd.dis.lastSlice = some l ∧ ¬ ((s.slice < l ∧ s.isLast = false) ∨ (s.slice = l ∧ s.isLast = true))) ∨
+            (sd.dis.lastSlice = none ∧ s.isLast = true ∧ ∃ k, s.slice < k ∧ k < sd.dis.cap ∧ (sd.dis.cache k).isSome)) :
+    (addDissem env sd s).2 = (.err .equivocation, [.invalidBlock]) ∧ (addDissem env sd s).1.misbehaved = true := by
+  unfold addDissem
+  simp only [hm, Bool.false_eq_true, if_false]
+  have : (addShred env sd.dis s).2 = .err .equivocation := by
+    unfold addShred
+    cases hcs : cacheStep sd.dis s with
+    | none => rfl
+    | some b1 =>
+      have hl : b1.lastSlice = sd.dis.lastSlice ∧ b1.cap = sd.dis.cap ∧ (∀ k, k ≠ s.slice → b1.cache k = sd.dis.cache k) := by
+        unfold cacheStep at hcs
+        split at hcs
+        · split at hcs
+          · simp at hcs
+          · simp at hcs; subst hcs; simp
+        · simp at hcs; subst hcs; simp [upd]; intro k hk; simp [hk]
+      have hls : lastStep b1 s = none := by
+        unfold lastStep
+        rcases hbad with ⟨l, hl1, hl2⟩ | ⟨hn, hil, k, hk1, hk2, hk3⟩
+        · rw [hl.1, hl1]
+          simp only
+          split
+          · rename_i hcons
+            exfalso; apply hl2
+            simp at hcons
+            rcases hcons with ⟨h1, h2⟩ | ⟨h1, h2⟩
+            · exact Or.inl ⟨h1, h2⟩
+            · exact Or.inr ⟨h1, h2⟩
+          · rfl
+        · rw [hl.1, hn]
+          simp only [hil, if_true]
+          have : hasKeyAbove b1.cap b1.cache s.slice = true := by
+            unfold hasKeyAbove
+            rw [List.any_eq_true]
+            refine ⟨k, by rw [hl.2.1]; exact List.mem_range.mpr hk2, ?_⟩
+            rw [hl.2.2 k (by omega)]
+            simp [hk1, hk3]
+          simp [this]
+      simp [hls]
+  cases hr : addShred env sd.dis s with
+  | mk b r =>
+    rw [hr] at this
+    simp only at this
+    subst this
+    simp [isBadErr, flag, hm]
+
 end AgModel.Blockstore
